@@ -153,7 +153,8 @@ def check_graph(g, where, has_dup):  # noqa: C901
                 got = sum(1 for w in lou.get(u, []) if w is v)
                 if not has_dup and got != k:
                     V("users-list-not-converse", f"{type(u).__name__} is a predecessor of {type(v).__name__} {k} time(s) "
-                      f"but {type(v).__name__} is listed {got} time(s) among its users", user=type(v).__name__, pred=type(u).__name__)
+                      f"but {type(v).__name__} is listed {got} time(s) among its users", user=type(v).__name__, pred=type(u).__name__,
+                      **({"via": "derived-shape"} if (u_id in dsa and u_id not in ids(mp)) else {}))
         if not has_dup:
             for u, users in lou.items():
                 for w in users:
@@ -176,7 +177,8 @@ def check_graph(g, where, has_dup):  # noqa: C901
                 for u in dpg(v):
                     if isinstance(u, pt.Array) and not any(w is v for w in users.get(u, ())):
                         V("users-set-not-converse", f"{type(u).__name__} is a direct predecessor of {type(v).__name__}, "
-                          f"which is missing from get_users()[{type(u).__name__}]", user=type(v).__name__, pred=type(u).__name__)
+                          f"which is missing from get_users()[{type(u).__name__}]", user=type(v).__name__, pred=type(u).__name__,
+                          **({"via": "derived-shape"} if (id(u) in ids(derived_shape_arrays(v)) and id(u) not in ids(model_preds(v))) else {}))
             for u, us in users.items():
                 for w in us:
                     if isinstance(w, pt.DictOfNamedArrays):
